@@ -60,4 +60,10 @@ move=> cc c0 sp cz; rewrite col_sdev_affine // ger0_norm ?sqrtr_ge0 //.
 rewrite -{1}[col_sdev c]sqr_sqrtr ?ltW // expr2 mulfK // gt_eqF // sqrtr_gt0.
 by [].
 Qed.
+(* root-mean-square scaling (option 2): the stored scaling of a complete column is the textbook root mean square *)
+Theorem col_rms_clean (c : vec) : cleanv c -> col_rms c = Num.sqrt ((\sum_(x <- c) x ^+ 2) / (size c)%:R).
+Proof.
+move=> cc; rewrite /col_rms /fsum_cnt (fsum_cnt_clean (fun x => x * x)) //= add0r add0n.
+by congr (Num.sqrt (_ / _)); apply: eq_bigr => x _; rewrite expr2.
+Qed.
 End Stats.
